@@ -1,5 +1,6 @@
 #!/usr/bin/env python3
 
+import numbers
 import numpy as np
 
 
@@ -58,7 +59,7 @@ class GlobalConfig:
         >>> from ffpack.config import globalConfig
         >>> globalConfig.setSeed( 0 )
         '''
-        if isinstance(seed, (int, type(None))):
+        if isinstance(seed, (numbers.Integral, type(None))):
             self.seed = seed
             np.random.seed( self.seed )
 
